@@ -958,6 +958,9 @@ func bridgeCfgFor(prop, tier string) (BridgeCfg, engine.Config) {
 		cfg.Amounts = []int64{1_000_000_000_000_007}
 		cfg.Fees = []int64{7_000_000_000_001}
 		cfg.Seeds = [][]engine.Op{{}, seedObserved, seedTwoTokenBatches}
+		if thorough {
+			cfg.Ops["FakeHeight"] = true // a Byzantine third of the power claims a fake far-ahead deposit for the next nonce
+		}
 	}
 	return cfg, ec
 }
